@@ -93,6 +93,52 @@ func (c *Ctx) FactsAt(b *ssa.BasicBlock) []Fact {
 			out = append(out, Fact{Cond: cx2, Val: v2, If: iff})
 		}
 	}
+	// an error merged from several tests (err = fmt.Errorf(…) on each failing test, one 'if err != nil' after them):
+	// the merged value is nil only through its one edge that is not a freshly made error — then that edge was taken,
+	// and the tests on the way to it came out as they do on that edge
+	for i := 0; i < len(out) && i < 64; i++ {
+		f := out[i]
+		if !f.Val || f.Cond.Op != "binop" || f.Cond.Name != "==" || len(f.Cond.Args) != 2 || f.Cond.Args[1].Op != "nil" {
+			continue
+		}
+		ph, ok := f.Cond.Args[0].V.(*ssa.Phi)
+		if !ok || f.Cond.Args[0].Op != "phi" || len(ph.Edges) < 2 || len(ph.Edges) != len(ph.Block().Preds) || !isErrorType(ph.Type()) {
+			continue
+		}
+		idx, n := -1, 0
+		for j, e := range ph.Edges {
+			if call, isCall := e.(*ssa.Call); isCall {
+				if callee := call.Call.StaticCallee(); callee != nil && callee.Pkg != nil {
+					if full := callee.Pkg.Pkg.Path() + "." + callee.Name(); full == "fmt.Errorf" || full == "errors.New" {
+						continue
+					}
+				}
+			}
+			if _, isMI := e.(*ssa.MakeInterface); isMI {
+				continue
+			}
+			idx = j
+			n++
+		}
+		if n != 1 {
+			continue
+		}
+		pred := ph.Block().Preds[idx]
+		out = append(out, Fact{Cond: &X{Op: "binop", Name: "==", Args: []*X{c.E(ph.Edges[idx]), f.Cond.Args[1]}}, Val: true, If: f.If})
+		out = append(out, edgeFact(c, pred, ph.Block())...)
+		for d := pred; d != nil; d = d.Idom() {
+			if len(d.Preds) != 1 {
+				continue
+			}
+			pp := d.Preds[0]
+			iff, ok := pp.Instrs[len(pp.Instrs)-1].(*ssa.If)
+			if !ok || pp.Succs[0] == pp.Succs[1] {
+				continue
+			}
+			cx2, v2 := normFact(c.E(iff.Cond), pp.Succs[0] == d)
+			out = append(out, Fact{Cond: cx2, Val: v2, If: iff})
+		}
+	}
 	// a test of a helper's boolean result carries the helper's own tests
 	if c.factDepth == 0 {
 		c.factDepth++
@@ -792,4 +838,77 @@ func blockPathsPass(b0 *ssa.BasicBlock, stop func(*ssa.BasicBlock) bool, pred fu
 		return true, ""
 	}
 	return false, strings.Join(bad, " → ")
+}
+
+// natLoop is a natural loop: its header and the blocks of its body.
+type natLoop struct {
+	Head *ssa.BasicBlock
+	Body map[*ssa.BasicBlock]bool
+}
+
+// naturalLoops lists the natural loops of fn (loops sharing a header are merged).
+func naturalLoops(fn *ssa.Function) []*natLoop {
+	byHead := map[*ssa.BasicBlock]*natLoop{}
+	var out []*natLoop
+	for _, t := range fn.Blocks {
+		for _, h := range t.Succs {
+			if !h.Dominates(t) {
+				continue
+			}
+			l := byHead[h]
+			if l == nil {
+				l = &natLoop{Head: h, Body: map[*ssa.BasicBlock]bool{h: true}}
+				byHead[h] = l
+				out = append(out, l)
+			}
+			work := []*ssa.BasicBlock{t}
+			for len(work) > 0 {
+				b := work[len(work)-1]
+				work = work[:len(work)-1]
+				if l.Body[b] {
+					continue
+				}
+				l.Body[b] = true
+				work = append(work, b.Preds...)
+			}
+		}
+	}
+	return out
+}
+
+// outermostLoop: the largest natural loop of b's function whose body holds b, or nil.
+func outermostLoop(b *ssa.BasicBlock) *natLoop {
+	var best *natLoop
+	for _, l := range naturalLoops(b.Parent()) {
+		if l.Body[b] && (best == nil || len(l.Body) > len(best.Body)) {
+			best = l
+		}
+	}
+	return best
+}
+
+// rangedOver: for a loop over the elements of a slice (for … range s, or an index loop), the slices indexed by the
+// loop's own induction variable.
+func (c *Ctx) rangedOver(l *natLoop) []*X {
+	var out []*X
+	for b := range l.Body {
+		for _, in := range b.Instrs {
+			var x, idx ssa.Value
+			switch v := in.(type) {
+			case *ssa.IndexAddr:
+				x, idx = v.X, v.Index
+			case *ssa.Index:
+				x, idx = v.X, v.Index
+			default:
+				continue
+			}
+			if bo, ok := idx.(*ssa.BinOp); ok {
+				idx = bo.X
+			}
+			if ph, ok := idx.(*ssa.Phi); ok && ph.Block() == l.Head {
+				out = append(out, c.E(x))
+			}
+		}
+	}
+	return out
 }
